@@ -307,6 +307,8 @@ def emit_c12_types(repo, types, props, anc, out, only=None):
         L.append("specfun knownMember%s%s(k) = %s" % (d["vocab"], t, " || ".join('k == "%s"' % n for n in known)))
         L.append("func %s.Deserialize%s" % (pkg, t))
         L.append("  params m, aliasMap")
+        L.append("  [C11] requires manager_installed: mgr != nil")
+        L.append("  [C11] ensures terminates_without_panic: true")
         for f, dec, _ in sorted(exp):
             fnv = 'decFnByName("%s")' % dec
             L.append("  [C12] ensures %s_is_what_its_own_decoder_returns: result1 == nil ==> decOK(%s, m, aliasMap) && result0.%s == decVal(%s, m, aliasMap)" % (f, fnv, f, fnv))
@@ -314,13 +316,13 @@ def emit_c12_types(repo, types, props, anc, out, only=None):
         L.append("  [C12] ensures exactly_the_other_members_are_kept_as_unknown: result1 == nil ==> (forall k String :: {has(result0.unknown, k)} has(result0.unknown, k) == (has(m, k) && !%s(k)))" % K)
         L.append("  [C12] ensures unknown_members_keep_their_value: result1 == nil ==> (forall k String :: {result0.unknown[k]} has(m, k) && !%s(k) ==> result0.unknown[k] == m[k])" % K)
         lo = 1 if d["typeless"] else 2
-        L.append("  loop %d [C12] invariant own_fresh_map: this != nil && this.unknown != nil && fresh(this.unknown) && fresh(this)" % lo)
-        L.append("  loop %d [C12] invariant visited_are_members: forall k String :: {visited(1)[k]} visited(1)[k] ==> has(m, k)" % lo)
-        L.append("  loop %d [C12] invariant unknown_so_far: forall k String :: {has(this.unknown, k)} has(this.unknown, k) == (visited(1)[k] && !%s(k))" % (lo, K))
-        L.append("  loop %d [C12] invariant unknown_values_so_far: forall k String :: {this.unknown[k]} visited(1)[k] && !%s(k) ==> this.unknown[k] == m[k]" % (lo, K))
+        L.append("  loop %d [C11,C12] invariant own_fresh_map: this != nil && this.unknown != nil && fresh(this.unknown) && fresh(this)" % lo)
+        L.append("  loop %d [C11,C12] invariant visited_are_members: forall k String :: {visited(1)[k]} visited(1)[k] ==> has(m, k)" % lo)
+        L.append("  loop %d [C11,C12] invariant unknown_so_far: forall k String :: {has(this.unknown, k)} has(this.unknown, k) == (visited(1)[k] && !%s(k))" % (lo, K))
+        L.append("  loop %d [C11,C12] invariant unknown_values_so_far: forall k String :: {this.unknown[k]} visited(1)[k] && !%s(k) ==> this.unknown[k] == m[k]" % (lo, K))
         for f, dec, _ in sorted(exp):
             fnv = 'decFnByName("%s")' % dec
-            L.append("  loop %d [C12] invariant %s_decoded: decOK(%s, m, aliasMap) && this.%s == decVal(%s, m, aliasMap)" % (lo, f, fnv, f, fnv))
+            L.append("  loop %d [C11,C12] invariant %s_decoded: decOK(%s, m, aliasMap) && this.%s == decVal(%s, m, aliasMap)" % (lo, f, fnv, f, fnv))
         L.append("dyncall %s.Deserialize%s.* satisfies slot-decoder-call" % (pkg, t))
         for f, dec, _ in sorted(exp):
             L.append("iface %s.privateManager.%s" % (pkg, dec))
